@@ -87,11 +87,13 @@ impl<C: Component, T: UnprotectedStorage<C>> UnprotectedStorage<C> for DerefFlag
     }
 
     unsafe fn insert(&mut self, id: Index, comp: C) {
+        // SAFETY: Requirements passed to caller.
+        unsafe { self.storage.insert(id, comp) };
+        // NOTE: Emitted only once the insertion succeeded, see
+        // `FlaggedStorage::insert`.
         if self.emit_event() {
             self.channel.single_write(ComponentEvent::Inserted(id));
         }
-        // SAFETY: Requirements passed to caller.
-        unsafe { self.storage.insert(id, comp) };
     }
 
     unsafe fn remove(&mut self, id: Index) -> C {
